@@ -49,7 +49,7 @@ func c07(c *Ctx) {
 	c.R.Rule = "abstract case = (JSON-mapping feature x context x value class) for {Go-server response vs TS client's declared result type, accepted contract-form request body vs declared request interface} + (placement RPC: path/query kind x verb) for the object the generated TS server passes to its handler + ts-client vs ts-server declaration equality per type name; " +
 		"non-trivial = the JSON value was captured on the wire (Go server) or in the handler (node bridge) and checked structurally, with excess-property checking, against the type AST read from the emitted declarations"
 	c.R.Assume("tstype reads the regular subset of TypeScript the plugins emit (validated on the repository's golden .ts files); no tsc available; a declaration the reader cannot parse is inconclusive, never a violation")
-	feats := sampleFeats(c, corpus.Features(), 2)
+	feats := corpus.Features() // every feature in both tiers; quick thins values
 	ctxs := []string{"top", "child", "repeated", "map", "oneof", "disc_nested", "disc_flatten", "flatten", "unwrap_sibling", "root_list"}
 	fl, err := buildFeatureLab(c, "c07", feats, []variant{{Tag: "s", Plugins: []string{"go-http"}}}, true, ctxs, false)
 	if err != nil {
@@ -232,7 +232,7 @@ func c07handlers(c *Ctx, l *lab.Lab) {
 				continue
 			}
 			pkg := fmt.Sprintf("c07.h%s%s", g.Label, where)
-			f, cases := corpus.PlacementFile(pkg, "c07h"+g.Label+where, g.QueryKinds, g.Cards, where == "path")
+			f, cases := corpus.PlacementFile(pkg, "c07h"+g.Label+where, g.QueryKinds, g.Cards, g.WithPath)
 			// keep only the wanted placement
 			var keepM []*spec.Method
 			var keepC []*corpus.PlaceCase
